@@ -29,8 +29,8 @@ META = {
     "design_ref": "DESIGN.md §7 C29",
 }
 
-QUICK_SNIPPETS, THOROUGH_SNIPPETS = 350, 100000
-QUICK_GEN, THOROUGH_GEN = 400, 8000
+QUICK_SNIPPETS, THOROUGH_SNIPPETS = 250, 100000
+QUICK_GEN, THOROUGH_GEN = 250, 5000
 QUICK_MUT, THOROUGH_MUT = 1500, 40000
 
 
@@ -402,7 +402,13 @@ def collect_programs(ctx):
     return progs
 
 
+def _t(ctx, name, t0):
+    ctx.extra.setdefault("phase_seconds", {})[name] = round(vlib.time.time() - t0, 1)
+    return vlib.time.time()
+
+
 def run(ctx):
+    t0 = vlib.time.time()
     ctx.rule = ("every BytecodeFunction (recursively through the constant pools) the real compiler emits for: the repo's Elk "
                 "sources (lib/, main.elk.test importing all *.elk.test), Elk snippets harvested from the Go test tables "
                 "(go/ast), generated programs (loops, closures, do/catch/finally, switch/patterns, generators, async, macros); "
@@ -411,7 +417,9 @@ def run(ctx):
                 "function bytecode; non-trivial = function with at least 2 instructions")
     probe, _ = _bc.regen_opcodes(ctx)
     tbl = Table(probe)
+    t0 = _t(ctx, "probe", t0)
     ctx.prove("ElkVerif.Props.C29")
+    t0 = _t(ctx, "prove", t0)
     ctx.trusted.append("semantic table Model/Bytecode/Op.lean hand-written from vm/thread.go (validated by the corpus only)")
 
     if ctx.replay:
@@ -430,7 +438,9 @@ def run(ctx):
                 progs.insert(0, ("corpus:" + d.get("id", "?"), d["src"], None))
 
     reqs = [{"id": "p%d" % i, "src": src, **({"name": nm} if nm else {})} for i, (lab, src, nm) in enumerate(progs)]
+    t0 = _t(ctx, "collect", t0)
     answers = _bc.dump_programs(reqs)
+    t0 = _t(ctx, "dump", t0)
     seen_code = set()
     real_lines, decode_lines = set(), []
     vlines, vmeta = [], []
@@ -454,6 +464,7 @@ def run(ctx):
 
     # --- verifier on every function
     out = vlib.run_model(vlines, timeout=3000) if vlines else []
+    t0 = _t(ctx, "verify", t0)
     reported = {}
     d16_instances = 0
     poly_fin = 0
@@ -550,6 +561,7 @@ def run(ctx):
                       "%d function(s): the shared `finally` epilogue is entered with different operand-stack depths "
                       "(flag-discriminated protocol of compileDo)" % poly_fin)
 
+    t0 = _t(ctx, "classify+report", t0)
     # --- decoder correspondence: real code + byte-level mutants
     if not ctx.replay:
         base = [bytes.fromhex(l.split("\t")[2]) for l in decode_lines]
@@ -559,3 +571,4 @@ def run(ctx):
             ctx.stat("decode:mutant")
         vlib.correspond(ctx, decode_lines, oracle=decode_oracle_factory(real_lines), minimise=minimise_decode,
                         label="decoder = DisassembleInstruction", keyfn=lambda l: l.split("\t")[2])
+        _t(ctx, "decode-correspondence", t0)
